@@ -521,6 +521,17 @@ func (g *G) strategy(p string) (*ye.Node, []string) {
 	s := sec("strategy")
 	av := "jobs.<job_id>.strategy"
 	var keys []string
+	if g.i("nomatrix", 0, 6) == 0 {
+		// a strategy section without a matrix: only fail-fast / max-parallel
+		which := g.i("nomatrixkeys", 0, 2)
+		if which != 1 {
+			s.Set("fail-fast", g.typed("false", p+".strategy.fail-fast", av, "bool"))
+		}
+		if which != 0 {
+			s.Set("max-parallel", g.typed("2", p+".strategy.max-parallel", av, "int"))
+		}
+		return s, nil
+	}
 	if g.i("matrixexpr", 0, 7) == 0 {
 		s.Set("matrix", leaf("${{ fromJSON(github.event.client_payload.matrix) }}", p+".strategy.matrix", av, Leaf{Template: true, Typed: "obj", Config: "matrix-as-expression"}))
 		keys = nil
@@ -682,7 +693,7 @@ func (g *G) job(w *WF, id string) *ye.Node {
 	if g.b("strategy") {
 		s, keys := g.strategy(p)
 		mkeys = keys
-		hasMatrix = s.Get("matrix").Kind == ye.Map
+		hasMatrix = s.Get("matrix") != nil && s.Get("matrix").Kind == ye.Map
 		j.Set("strategy", s)
 	}
 	_ = mkeys
@@ -822,7 +833,22 @@ func (g *G) step(ids *[]string) *ye.Node {
 			w := umap("with", true)
 			sc := tmpl("console.log('hello')", p+".with.script", p+".with")
 			LeafOf(sc).Script = true
-			w.Set("script", sc)
+			// the action's other inputs, before or after the script
+			other := func() {
+				if g.b("gstoken") {
+					w.Set("github-token", leaf("${{ github.token }}", p+".with.<with_id>", p+".with", Leaf{Template: true, Config: "github-script-other-input"}))
+				}
+				if g.b("gsenc") {
+					w.Set("result-encoding", leaf("string", p+".with.<with_id>", p+".with", Leaf{Template: true, Config: "github-script-other-input"}))
+				}
+			}
+			if g.b("gsotherfirst") {
+				other()
+				w.Set("script", sc)
+			} else {
+				w.Set("script", sc)
+				other()
+			}
 			s.Set("with", w)
 		default:
 			s.Set("uses", tmpl("owner/unknown-action@v1", p+".uses", ""))
